@@ -58,8 +58,9 @@ def ret_shapes(ty):
 class Model:
     """Holds the memoised summaries and implements the on_call hook."""
 
-    def __init__(self, F, trusted=None, refine_tags=False, record_events=True, cap=40000, scope_crates=("garnish_lang_runtime", "garnish_lang_traits", "gfixture")):
+    def __init__(self, F, trusted=None, refine_tags=False, record_events=True, cap=40000, scope_crates=("garnish_lang_runtime", "garnish_lang_traits", "gfixture"), flags_only=False):
         self.F = F
+        self.flags_only = flags_only  # ev is a sorted set of {"add_unit", "defer", "work"} instead of the detailed event trace
         self.memo = {}
         self.in_progress = set()
         self.trusted = trusted or {}
@@ -72,10 +73,30 @@ class Model:
         self.states = 0
         self.watch = {}  # callee fn name -> event label: record the shape of what that callee returned on this path
 
+    BOOKKEEPING = {"get_data_type", "pop_register", "push_register", "get_register_len", "get_register", "add_unit", "add_true", "add_false",
+                   "get_instruction_cursor", "get_instruction_len", "get_from_jump_table", "get_jump_table_len", "push_value_stack", "pop_value_stack",
+                   "get_current_value", "get_current_value_mut", "push_frame", "pop_frame", "defer_op", "apply", "resolve", "get_data_len"}
+
+    @staticmethod
+    def _flag(ev, name):
+        return ev if name in ev else tuple(sorted(ev + (name,)))
+
     # ------------------------------------------------------------------ contract
     def contract(self, name, args, ts, t, interp, env):
         """Outcomes [(ret_value, new_ts)] of GarnishData::<name>."""
         d, v, f, ev, np = ts
+        if self.flags_only:
+            if name == "add_unit":
+                ev = self._flag(ev, "add_unit")
+            elif name == "defer_op":
+                ev = self._flag(ev, "defer")
+            elif name in ("apply", "resolve"):
+                ev = self._flag(ev, "host")
+            elif name not in self.BOOKKEEPING:
+                ev = self._flag(ev, "work")
+            ts = (d, v, f, ev, np)
+            if name in ("defer_op", "apply", "resolve"):
+                return [(variant("Ok", const(1)), (d_add(d, 1), v, f, ev, np)), (variant("Ok", const(0)), ts), (variant("Err", TOP), ts)]
         dty = interp.mir["locals"][t["dest"]["l"]]["ty"] if not t["dest"]["p"] else ""
         E = variant("Err", TOP)
         if name == "push_register":
@@ -96,9 +117,9 @@ class Model:
             return [(variant("Ok", ("tag", a)), ts), (E, ts)]
         if name == "get_register_len":
             return [(("depth", d), ts)]
-        if name in ("add_concatenation", "add_range", "add_slice", "add_partial", "add_pair", "merge_to_symbol_list") and self.record_events:
+        if name in ("add_concatenation", "add_range", "add_slice", "add_partial", "add_pair", "merge_to_symbol_list") and self.record_events and not self.flags_only:
             return [(variant("Ok", TOP), (d, v, f, ev + (("ctor", name) + tuple(args[1:]),), np)), (E, ts)]
-        if name in ("add_true", "add_false") and self.record_events:
+        if name in ("add_true", "add_false") and self.record_events and not self.flags_only:
             return [(variant("Ok", TOP), (d, v, f, ev + ((name,),), np)), (E, ts)]
         if name in ("defer_op", "apply", "resolve"):
             kind = {"defer_op": "defer", "apply": "apply", "resolve": "resolve"}[name]
